@@ -191,3 +191,24 @@ Proof.
   destruct (write_ok pver net ebs m Hwf Hnr Hmax) as [fr Hw].
   exists fr. split; [exact Hw|]. apply frame_roundtrip; assumption.
 Qed.
+
+(* the model's own limit table admits every well-formed message at its longest ... *)
+Theorem max_wf_le_limit : forall k pver ebs n,
+  max_wf_payload_len k pver = Some n -> n <= max_payload k pver ebs.
+Proof.
+  intros k pver ebs n H.
+  destruct k; cbn [max_wf_payload_len max_payload] in *;
+    unfold netaddr_size, has_ts, max_net_address_payload, MaxVarIntPayload, MaxUserAgentLen, MaxAddrPerMsg,
+      MaxBlockLocatorsPerMsg, MaxBlockHeadersPerMsg, MaxInvPerMsg, MaxFilterAddDataSize, MaxFilterLoadFilterSize in *;
+    cbn [andb] in *;
+    repeat match type of H with context [if ?c then _ else _] => destruct c end;
+    try discriminate H; inversion H; subst; clear H;
+    repeat match goal with |- context [if ?c then _ else _] => destruct c eqn:? end; lia.
+Qed.
+
+(* ... and the bound is attained: 1000 time-stamped addresses at exactly NetAddressTimeVersion *)
+Example max_wf_attained_addr :
+  let m := MAddr (repeat (mk_na 1 1 (repeat 0 16%nat) 1) 1000) in
+  wf_msg 31402 (max_message_payload 128000000) m = true /\
+  Some (len (enc_payload 31402 m)) = max_wf_payload_len KAddr 31402.
+Proof. split; vm_compute; reflexivity. Qed.
